@@ -133,3 +133,12 @@ case(H + "copy_attrs", params={"src": Ref("HInfo"), "dst": Ref("HInfo")}, modifi
      canaries={"always": "dst.v == src.v", "never": "dst.w == old(dst.w)"},
      gen=lambda rng: {"s": [rng.choice([None, 1, 2]), rng.choice([None, 3])], "d": [rng.choice([None, 7]), rng.choice([None, 8])]},
      build=lambda d: {"src": M.HInfo(*d["s"]), "dst": M.HInfo(*d["d"])})
+
+# in-place mutation of the containers stored in a container, through the loop variable: no write-through model -> refused
+case(H + "update_values", params={"d": Dict(STR, List(INT))}, returns=INT, modifies=["d"], expect="unsupported", msg="aliased")
+from pyvc.api import BOOL as _BOOL, REAL as _REAL, Tuple as _Tuple  # noqa: E402
+
+# a python-level slice of a tuple of REALs against a constant tuple of ints: component-wise with numeric promotion
+case(H + "unit_transform", params={"t": _Tuple(_REAL, _REAL, _REAL, _REAL, _REAL, _REAL)}, returns=_BOOL,
+     ensures={"v": "result == (t[0] == 1 and t[1] == 0 and t[2] == 0 and t[3] == 1 and t[4] == 0)"}, canaries={"t": "result", "f": "not result"},
+     gen=lambda rng: {"t": rng.choice([[1, 0, 0, 1, 0, 5], [1.0, 0.0, 0.0, 1.0, 0.0, 2.5], [2, 0, 0, 1, 0, 0]])}, build=lambda d: {"t": tuple(d["t"])})
